@@ -56,11 +56,14 @@ def run_profile(ctx, prop, profile, nseq, nops, size, kinds=None, seed_off=0, sh
     if rc != 0 and not res:
         fails.append(Failure(prop, 'panic', 'harness', 'harness died: ' + err[-600:], replay=dict(profile=profile, size=size)))
         return fails, stats
-    for r in res:
+    # the model driver judges the traces of one batch in parallel (one process per trace)
+    from concurrent.futures import ThreadPoolExecutor
+    with ThreadPoolExecutor(max_workers=min(12, max(1, len(res)))) as pool:
+        judged = list(pool.map(lambda r_: vlib.run_drv(r_['trace'], noabs=True) if survive_only else judge_trace(r_['trace']), res))
+    for r, (steps, done) in zip(res, judged):
         stats['sequences'] += 1
         for k, v in (r.get('hist') or {}).items():
             stats['hist'][k] = stats['hist'].get(k, 0) + v
-        steps, done = vlib.run_drv(r['trace'], noabs=True) if survive_only else judge_trace(r['trace'])
         if survive_only:
             # only the question whether the server survived (panic / hang / livelock) is asked
             for s_ in steps:
@@ -74,7 +77,13 @@ def run_profile(ctx, prop, profile, nseq, nops, size, kinds=None, seed_off=0, sh
         if r.get('panic'):
             steps.append(dict(id='?', proc='server', panic=True, reply=1, nabs=0, nwf=0, alloc=1, detail=r['panic'][:600]))
         try:
-            os.remove(r['trace'])
+            if vlib.first_failure(steps) is not None:
+                # keep the trace of a failing sequence for diagnosis (bounded: one directory, overwritten per profile/index)
+                kd = os.path.join(vlib.V, '.work', 'failed_traces')
+                os.makedirs(kd, exist_ok=True)
+                os.replace(r['trace'], os.path.join(kd, '%s_%s_%d.trace' % (prop, profile, r['index'])))
+            else:
+                os.remove(r['trace'])
         except OSError:
             pass
         # a step that only hits an open finding and leaves model and implementation in agreement
@@ -108,7 +117,8 @@ def run_profile(ctx, prop, profile, nseq, nops, size, kinds=None, seed_off=0, sh
         small = ops
         final_step = st
         nshrunk = stats.setdefault('nshrunk', 0)
-        if shrink and kind != 'panic' and len(ops) > 1 and nshrunk < 3:
+        owned_here = any(a in kinds for a, _ in vlib.classify_all(st))
+        if shrink and owned_here and kind != 'panic' and len(ops) > 1 and nshrunk < 3:
             stats['nshrunk'] = nshrunk + 1
             upto = [o for o in ops if int(o.split()[0]) <= int(st['id'])] if st['id'].isdigit() else ops
 
